@@ -3,6 +3,8 @@
 pub mod alloc;
 pub mod audit;
 pub mod cli;
+pub mod deser;
+pub mod faults;
 pub mod fuse;
 pub mod ledger;
 pub mod model;
